@@ -5,6 +5,8 @@ from ..probe import call
 from ..ref import bits
 
 LEVEL = "exploration"
+TECHNIQUE = 'runtime monitoring: Annex 10 uplink frame builder as oracle, exhaustive field product'
+LEVEL_TEXT = 'UF x RR x DI x RRS and UF11 PR x CL x IC enumerated completely on every run; addresses and remaining bits sampled.'
 EXHAUSTIVE = True
 LEVEL_RULE = (
     "decoder.uplink.* called on interrogations built forward: AP = parity(data) XOR top 24 bits of G(x)*A(x) for sampled and "
